@@ -319,6 +319,22 @@ func (e *Enforcer) ClearPolicy() {
 		return
 	}
 	e.model.ClearPolicy()
+	e.clearRoleLinks()
+}
+
+// clearRoleLinks removes every link from the role managers. The links are derived from the
+// grouping rules, so they must go when all rules are dropped.
+func (e *Enforcer) clearRoleLinks() {
+	for _, rm := range e.rmMap {
+		if rm != nil {
+			_ = rm.Clear()
+		}
+	}
+	for _, crm := range e.condRmMap {
+		if crm != nil {
+			_ = crm.Clear()
+		}
+	}
 }
 
 // LoadPolicy reloads the policy from file/database.
